@@ -17,6 +17,29 @@ func parseStrUint(buf []byte) (u uint) {
 	return
 }
 
+// subSecMillis converts the digits of a SubSecTime value (a decimal fraction of a second
+// of any length, e.g. "5", "12", "123456") to milliseconds.
+func subSecMillis(buf []byte) (ms uint16) {
+	digits := 0
+	for i := 0; i < len(buf) && digits < 3; i++ {
+		if buf[i] < '0' || buf[i] > '9' {
+			if digits > 0 {
+				break
+			}
+			continue
+		}
+		ms = ms*10 + uint16(buf[i]-'0')
+		digits++
+	}
+	if digits == 0 {
+		return 0
+	}
+	for ; digits < 3; digits++ {
+		ms *= 10
+	}
+	return ms
+}
+
 // trimNULBuffer removes trailing bytes from Buffer
 func trimNULBuffer(buf []byte) []byte {
 	for i := len(buf) - 1; i >= 0; i-- {
